@@ -1,4 +1,7 @@
-"""group IsoSm: the protocol decisions of the ISO-DEP initiator and of the Type 4 Tag NDEF procedures in nfc/tag/tt4.py
+"""VARIANT of harness/fnspecs/isosm.py for a source tree with fixes/C08/0010-0012 applied (bounded S(WTX) handling,
+retransmissions after R(ACK) counted, response chaining checked).  See README in this directory.
+
+group IsoSm: the protocol decisions of the ISO-DEP initiator and of the Type 4 Tag NDEF procedures in nfc/tag/tt4.py
 -> Model/IsoDep.lean (C12), Model/T4.lean (C01/C02/C03 part t34), Model/AdvT34.lean (C08), Model/FnIsoSmRef.lean.
 
 The byte level of `tt4.py` (APDU build / status, FSCI / FWI, capability container, READ / UPDATE BINARY arguments) is the
@@ -40,7 +43,7 @@ _NAK = [("self.n_retry_nak", "n_retry_nak", INT)]
 _ACK = [("self.n_retry_ack", "n_retry_ack", INT)]
 _NLS = [("self._nlen_size", "nlen_size", INT)]
 _CMD_TRY = [(2, "body"), (3, "body"), (0, "body")]
-_RSP_TRY = [(3, "body"), (1, "body"), (0, "body")]
+_RSP_TRY = [(3, "body"), (2, "body"), (0, "body")]
 XC = D + "_exchange_command"
 _C = "command phase (loop over the command blocks), "
 _R = "response phase (`while data[0] & 0x10`), "
@@ -51,22 +54,27 @@ def _cmd_h(i):
 
 
 def _rsp_h(i):
-    return [(3, "body"), (1, "body"), (0, ("handlers", i))]
+    return [(3, "body"), (2, "body"), (0, ("handlers", i))]
 
 
 SPECS = [
     # ---- IsoDepInitiator._exchange, exchange
-    Spec(GROUP, "iso_wtx_test", F, D + "_exchange", [("data", BYTES)], stmts=[1],
+    Spec(GROUP, "iso_wtx_test", F, D + "_exchange", [("data", BYTES)], stmts=[2],
          expr="len(data) > 1 and data[0] & 0b11111110 == 0b11110010", note="cut: the loop condition of `_exchange` (answer is an S(WTX) request)"),
-    Spec(GROUP, "iso_wtx_time", F, D + "_exchange", [("data", BYTES)], binds=[("self.fwt", "fwt", INT)], stmts=[1],
-         expr="(data[1] & 0x3F) * self.fwt", note="cut: the waiting time granted with the S(WTX) response; `self.fwt` (a float) is an integer here"),
+    Spec(GROUP, "iso_wtx_sum0", F, D + "_exchange", [], stmts=[1], result=["wtxm_sum"], note="cut: `wtxm_sum = 0`"),
+    Spec(GROUP, "iso_wtx_step", F, D + "_exchange", [("data", BYTES), ("wtxm_sum", INT)],
+         binds=[("self.max_wtxm_sum", "max_wtxm_sum", INT)], path=[(2, "body")], stmts=(0, 4), result=["wtxm", "wtxm_sum"],
+         note="cut: body of the S(WTX) loop up to the answer: WTXM must be 1..59 (ProtocolError), the multipliers granted "
+              "for one block are summed up, TIMEOUT_ERROR when the sum exceeds `self.max_wtxm_sum`"),
+    Spec(GROUP, "iso_wtx_time", F, D + "_exchange", [("wtxm", INT)], binds=[("self.fwt", "fwt", INT)], path=[(2, "body")], stmts=[5],
+         expr="wtxm * self.fwt", note="cut: the waiting time granted with the S(WTX) response; `self.fwt` (a float) is an integer here"),
     Spec(GROUP, "iso_latch_chk", F, D + "exchange", [("command", OPT(BYTES))],
          binds=[("self.errno is not None", "latched", BOOL), ("self.errno", "errno", INT)], stmts=[0],
          note="cut: `if command is not None and self.errno is not None: raise Type4TagCommandError(self.errno)`; the test "
               "`self.errno is not None` is the Bool parameter `latched`, `self.errno` then the integer `errno`"),
     Spec(GROUP, "iso_latch_set", F, D + "exchange", [], binds=[("error.errno", "err", INT)], path=[(1, ("handlers", 0))], stmts=[0],
          stores=["self.errno"], result=["self.errno"], note="cut: `self.errno = error.errno` in the handler of Type4TagCommandError"),
-    Spec(GROUP, "iso_init", F, D + "__init__", [("fsc", INT)], stmts=[1, 2, 7], stores=["self.pni", "self.miu", "self.errno"],
+    Spec(GROUP, "iso_init", F, D + "__init__", [("fsc", INT)], stmts=[1, 2, 8], stores=["self.pni", "self.miu", "self.errno"],
          result=["self.pni", "self.miu", "self.errno"],
          note="cut: `self.pni = 0`, `self.miu = fsc - 3`, `self.errno = None` (the float statements are not translated)"),
     # ---- _exchange_command
@@ -80,8 +88,10 @@ SPECS = [
          note="cut: " + _C + "inside `try`: an empty answer is a TransmissionError"),
     Spec(GROUP, "iso_resend_test", F, XC, [("data", BYTES)], binds=_PNI, path=_CMD_TRY, stmts=[2],
          expr="data[0] == 0xA2 | (~self.pni & 1)", note="cut: " + _C + "inside `try`: R(ACK) with the other block number -> retransmit"),
+    Spec(GROUP, "iso_resend_budget", F, XC, [("i", INT)], binds=_NAK, path=_CMD_TRY + [(2, "body")], stmts=[0],
+         note="cut: " + _C + "a retransmission after R(ACK) counts against the retry limit: PROTOCOL_ERROR beyond `n_retry_nak + 1`"),
     Spec(GROUP, "iso_resend_blk", F, XC, [("pfb", BYTES), ("command", BYTES), ("offset", INT)], binds=_MIU,
-         path=_CMD_TRY + [(2, "body")], stmts=[1], result=["data"], note="cut: " + _C + "the retransmitted I-block"),
+         path=_CMD_TRY + [(2, "body")], stmts=[2], result=["data"], note="cut: " + _C + "the retransmitted I-block"),
     Spec(GROUP, "iso_nak_on_transmission", F, XC, [("i", INT)], binds=_NAK + _PNI, path=_cmd_h(0), stmts=[0], result=["data"],
          note="cut: " + _C + "`except TransmissionError`: R(NAK) while `i <= self.n_retry_nak`, else RECEIVE_ERROR"),
     Spec(GROUP, "iso_nak_on_timeout", F, XC, [("i", INT)], binds=_NAK + _PNI, path=_cmd_h(1), stmts=[0], result=["data"],
@@ -99,7 +109,9 @@ SPECS = [
          note="cut: " + _C + "`else` branch (last block): I-block expected, block number toggled, `response = data[1:]`"),
     Spec(GROUP, "iso_chain_test", F, XC, [("data", BYTES)], stmts=[3], expr="bool(data[0] & 0b00010000)",
          note="cut: the condition of the response chaining loop"),
-    Spec(GROUP, "iso_ack_blk", F, XC, [], binds=_PNI, path=[(3, "body")], stmts=[0], result=["data"], note="cut: " + _R + "the R(ACK) block"),
+    Spec(GROUP, "iso_chain_chk", F, XC, [("data", BYTES), ("response", BYTES)], path=[(3, "body")], stmts=[0],
+         note="cut: " + _R + "a chained block without INF octets or a response beyond 65538 octets is a PROTOCOL_ERROR"),
+    Spec(GROUP, "iso_ack_blk", F, XC, [], binds=_PNI, path=[(3, "body")], stmts=[1], result=["data"], note="cut: " + _R + "the R(ACK) block"),
     Spec(GROUP, "iso_empty_chk_r", F, XC, [("data", BYTES)], path=_RSP_TRY, stmts=[1],
          note="cut: " + _R + "inside `try`: an empty answer is a TransmissionError"),
     Spec(GROUP, "iso_ack_on_transmission", F, XC, [("i", INT)], binds=_ACK + _PNI, path=_rsp_h(0), stmts=[0], result=["data"],
@@ -109,9 +121,9 @@ SPECS = [
     Spec(GROUP, "iso_rsp_on_protocol", F, XC, [], path=_rsp_h(2), stmts=[0, 1], note="cut: " + _R + "`except ProtocolError`"),
     Spec(GROUP, "iso_rsp_on_other", F, XC, [], path=_rsp_h(3), stmts=[1],
          note="cut: " + _R + "`except CommunicationError` (any other class): the `raise`"),
-    Spec(GROUP, "iso_bn_chk_rsp", F, XC, [("data", BYTES)], binds=_PNI, path=[(3, "body")], stmts=[2],
+    Spec(GROUP, "iso_bn_chk_rsp", F, XC, [("data", BYTES)], binds=_PNI, path=[(3, "body")], stmts=[3],
          note="cut: " + _R + "the block number check behind the retry loop"),
-    Spec(GROUP, "iso_chain_acc", F, XC, [("response", BYTES), ("data", BYTES)], binds=_PNI, path=[(3, "body")], stmts=[3, 4],
+    Spec(GROUP, "iso_chain_acc", F, XC, [("response", BYTES), ("data", BYTES)], binds=_PNI, path=[(3, "body")], stmts=[4, 5],
          stores=["self.pni"], result=["response", "self.pni"], note="cut: " + _R + "`response = response + data[1:]`, block number toggled"),
     # ---- Type4Tag.NDEF
     Spec(GROUP, "iso_sel_app_table", F, N + "_select_ndef_application", [], expr="((ndef_aid_v2, 256), (ndef_aid_v1, 0))",
@@ -171,14 +183,14 @@ P = "NfcVerif.FnBridge.IsoSm."
 BRIDGE = {
     "module": "NfcVerif.Props.FnBridgeIsoSm",
     "theorems": [P + t for t in (
-        "wtx_test_bridge", "empty_chk_bridge", "resend_test_bridge", "nak_handlers_bridge", "ack_handlers_bridge",
+        "wtx_test_bridge", "wtx_step_bridge", "wtxmOf_eq", "resend_budget_bridge", "chain_chk_bridge", "gen_exchange_safe", "empty_chk_bridge", "resend_test_bridge", "nak_handlers_bridge", "ack_handlers_bridge",
         "protocol_handlers_bridge", "xchgW_bridge", "cmd_loop_bridge", "rsp_loop_bridge", "iblock_bridge", "bn_chk_bridge",
         "ack_step_bridge", "inf_step_bridge", "chain_test_bridge", "ack_blk_bridge", "chain_acc_bridge", "offsets_bridge",
         "resend_blk_bridge", "send_offsets_aux", "recv_chain_bridge", "exchange_cmd_bridge", "exchange_bridge", "presence_bridge",
-        "send_apdu_bridge", "dep_fail_bridge", "latch_bridge", "wtx_time_bridge", "init_bridge", "binary_args", "read_bin_bridge",
+        "dep_fail_bridge", "latch_bridge", "wtx_time_bridge", "init_bridge", "binary_args", "read_bin_bridge",
         "select_fid_bridge", "select_app_bridge", "cclen_bridge", "discover4_bridge", "read_loop4_bridge", "nlen_bridge",
         "read_file4_bridge", "discover4_nlen", "read_ndef4_bridge", "cutData_sound", "cutNlen_sound", "chunk_cmds_bridge", "pack_nlen", "plan_write_bridge",
-        "gen_at_most_once", "gen_response_exact", "gen_refuses_after_error", "gen_error_kind", "gen_t4_read_safe",
+        "gen_t4_read_safe",
         "gen_more_false_last")],
     "properties": ["C12", "C16", "C08", "C01"],
 }
@@ -203,11 +215,22 @@ def inputs(rng, sp):
                 out.append(([bytes([p]) + _b(rng, n)], []))
         out.append(([b""], []))
     if sp.lean == "iso_wtx_time":
-        for v in (0, 1, 59, 63, 64, 0xFF):
+        for v in (0, 1, 59, 63):
             for fwt in (0, 1, 302, 4949):
-                out.append(([bytes([0xF2, v])], [fwt]))
-        out.append(([b"\xf2"], [5]))
-        out.append(([b""], [5]))
+                out.append(([v], [fwt]))
+    if sp.lean == "iso_wtx_step":
+        for v in (0, 1, 58, 59, 60, 63, 64, 0xFF):
+            for sm in (0, 100, 941, 942, 1000):
+                out.append(([bytes([0xF2, v]), sm], [1000]))
+        out.append(([b"\xf2", 0], [1000]))
+    if sp.lean == "iso_resend_budget":
+        for i in range(0, 8):
+            for n in (0, 1, 5):
+                out.append(([i], [n]))
+    if sp.lean == "iso_chain_chk":
+        for n in (0, 1, 2, 5):
+            for m in (0, 10):
+                out.append(([_b(rng, n), _b(rng, m)], []))
     if sp.lean in ("iso_resend_test", "iso_bn_chk_cmd", "iso_bn_chk_rsp", "iso_ack_step", "iso_inf_step"):
         for p in pcbs:
             for pni in (0, 1, 2, -1):
@@ -321,7 +344,13 @@ MUTATIONS = [
     ("iso_wtx_test", "S(WTX) recognised without the INF octet", "while len(data) > 1 and data[0] & 0b11111110 == 0b11110010:",
      "while len(data) > 0 and data[0] & 0b11111110 == 0b11110010:"),
     ("iso_wtx_test", "S(DESELECT) taken for S(WTX)", "data[0] & 0b11111110 == 0b11110010:", "data[0] & 0b11001110 == 0b11000010:"),
-    ("iso_wtx_time", "WTXM mask", "(data[1] & 0x3F) * self.fwt", "(data[1] & 0x7F) * self.fwt"),
+    ("iso_wtx_step", "WTXM mask", "wtxm = data[1] & 0x3F", "wtxm = data[1] & 0x7F"),
+    ("iso_wtx_step", "WTXM 60 accepted", "if wtxm == 0 or wtxm > 59:", "if wtxm == 0 or wtxm > 60:"),
+    ("iso_wtx_step", "limit compared before the sum is updated", "            wtxm_sum += wtxm\n            if wtxm_sum > self.max_wtxm_sum:",
+     "            if wtxm_sum > self.max_wtxm_sum:"),
+    ("iso_resend_budget", "retransmission budget off by one", "if i > self.n_retry_nak + 1:\n                            log.error(\"ISO-DEP too many retransmit requests\")",
+     "if i > self.n_retry_nak:\n                            log.error(\"ISO-DEP too many retransmit requests\")"),
+    ("iso_chain_chk", "response size limit", "len(response) > 65538", "len(response) > 65539"),
     ("iso_latch_chk", "latched error also blocks the presence check", "if command is not None and self.errno is not None:",
      "if self.errno is not None:"),
     ("iso_presence_blk", "presence check with R(ACK)", "data = bytearray([0xB2 | self.pni])\n            self.clf.exchange",
